@@ -51,7 +51,18 @@ func runC13(c *core.Ctx) {
 		c.Set("race_pass", "build/vcheck-race not found: skipped")
 	} else {
 		for _, cold := range []string{"", "1,16", "2,16", "1,3", "2,3"} {
-			c13RacePass(c, bin, cold)
+			c13RacePass(c, bin, cold, "")
+		}
+	}
+	// the same free-running scenarios in the GOARCH=386 build (no race detector there): alignment of 64-bit atomics, 32-bit
+	// counters; a crash inside pkg/pow, an invalid result, a hang or a leaked goroutine is reported as C13/386/...
+	if bin386 := filepath.Join(core.VerifDir, "build", "vcheck-386"); runtime.GOARCH == "amd64" {
+		if _, err := os.Stat(bin386); err != nil {
+			c.Set("arch_386_pass", "build/vcheck-386 not found: skipped")
+		} else {
+			c13RacePass(c, bin386, "", "386/")
+			c13RacePass(c, bin386, "1,3", "386/")
+			c13RacePass(c, bin386, "2,3", "386/")
 		}
 	}
 	c.SetExhaustive(exhaustive)
@@ -60,10 +71,10 @@ func runC13(c *core.Ctx) {
 
 // c13RacePass runs the free-running pass in build/vcheck-race; cold = "v,N": a fresh process whose first use of the
 // package is a Mine of version v with N workers.
-func c13RacePass(c *core.Ctx, bin, cold string) {
-	tag := "race"
+func c13RacePass(c *core.Ctx, bin, cold, label string) {
+	tag := label + "race"
 	if cold != "" {
-		tag = "race-cold-start"
+		tag = label + "race-cold-start"
 	}
 	{
 		tmp, _ := os.MkdirTemp("", "c13race")
@@ -103,7 +114,7 @@ func c13RacePass(c *core.Ctx, bin, cold string) {
 			}
 		default:
 			if cold == "" {
-				c.Set("race_pass_runs", m[1])
+				c.Set(strings.ReplaceAll(label, "/", "_")+"race_pass_runs", m[1])
 			}
 			if m[2] != "0" {
 				c.Violate("C13/"+tag+"/free-running", "free-running pass: "+strings.TrimSpace(m[3]), nil, "", nil)
